@@ -16,13 +16,30 @@ THE PROPERTY the project is supposed to satisfy:
   Statement: {statement}
   Quantified over: {quant}
 
-YOUR TASK: make a small source change to the package (under {wt}/cdd, not under cdd/tests) that BREAKS this property while (a) the package still imports/compiles and (b) the existing test suite still passes exactly as before (the same tests pass, the same 9 fail). The change should look like a plausible refactoring/optimisation/bug-fix gone slightly wrong, not sabotage, and it must need something SPECIFIC to manifest -- a particular kind of input, an unusual option combination, a multi-step sequence of operations, a crash/fault at a particular point, a particular interpreter configuration or import order, or two cooperating sites that each look fine alone -- rather than something ordinary use would expose at once. Prefer a site other than the first one that comes to mind (a helper two calls away from the obvious function, a rarely taken branch, a second format or style). Note that the current code base is alpha quality and already violates the property on some inputs; your change must break it on inputs / scenarios where the UNMODIFIED tree satisfies it (your demo proves that). First read the relevant code to find where the property is actually upheld.
+YOUR TASK: make a small source change to the package (under {wt}/cdd, not under cdd/tests) that BREAKS this property while (a) the package still imports/compiles and (b) the existing test suite still passes exactly as before (the same tests pass, the same 9 fail). The change should look like a plausible refactoring/optimisation/bug-fix gone slightly wrong, not sabotage, and it must need something SPECIFIC to manifest -- a particular kind of input, an unusual option combination, a multi-step sequence of operations, a crash/fault at a particular point, a particular interpreter configuration or import order, or two cooperating sites that each look fine alone -- rather than something ordinary use would expose at once. Prefer a site other than the first one that comes to mind (a helper two calls away from the obvious function, a rarely taken branch, a second format or style). Note that the current code base is alpha quality and already violates the property on some inputs; your change must break it on inputs / scenarios where the UNMODIFIED tree satisfies it (your demo proves that). First read the relevant code to find where the property is actually upheld.{avoid}
 
 Deliverables in {out}/ :
   1. patch.diff   -- `git -C {wt} diff` of your change (source files only).
   2. demo.py      -- a small standalone program (run as: cd <tree> && PYTHONPATH=<tree> /venv/bin/python {out}/demo.py, where <tree> is a checkout root used as cwd) that exits 0 when the property holds for its scenario and exits 1 (printing what went wrong) when it does not. It must FAIL (exit 1) with your change applied and PASS (exit 0) on the unmodified tree. It may create temp files under a tempfile.mkdtemp() directory that it removes afterwards; it must not depend on files in {out}/scratch.
   3. notes.md     -- which part of the property your change breaks, what exactly is needed for it to manifest, and why the existing tests do not notice.
 Verify all of this yourself before finishing: run the test suite with the change, run demo.py with and without the change, and leave the worktree WITH the change applied, `git -C {wt} diff` containing only your change. Keep the change to a few lines. In your final message give a 5-line summary (file(s) changed, trigger, demo result with/without, test-suite result).'''
+
+import re
+
+
+def used_sites(pid):
+    """functions that earlier seeded changes for this property touched (names only -- nothing about the checks)"""
+    out = []
+    base = "/verif/seeded"
+    for n in sorted(os.listdir(base)):
+        pth = os.path.join(base, n, "patch.diff")
+        if n[:3] == pid and os.path.isfile(pth):
+            txt = open(pth).read()
+            for f, fn in zip(re.findall(r"^\+\+\+ b/(\S+)", txt, re.M), re.findall(r"^@@.*@@ (?:def|class|async def) (\w+)", txt, re.M)):
+                if (f, fn) not in out:
+                    out.append((f, fn))
+    return out
+
 
 root, ids = sys.argv[1], sys.argv[2:]
 props = {json.loads(l)["id"]: json.loads(l) for l in open("/verif/properties.jsonl")}
@@ -33,5 +50,8 @@ for pid in ids:
     subprocess.run(["git", "-C", "/repo", "worktree", "add", "-q", wt, "HEAD"], check=True)
     os.makedirs(os.path.join(out, "scratch"), exist_ok=True)
     with open(os.path.join(root, pid + "_prompt.txt"), "w") as f:
-        f.write(TPL.format(wt=wt, out=out, title=p["title"], statement=p["statement"], quant=p["quantifier"]["text"]))
+        sites = used_sites(pid)
+        avoid = (" Earlier rounds of this exercise already changed these functions; pick a DIFFERENT function and a different mechanism: "
+                 + "; ".join("%s in %s" % (fn, f) for f, fn in sites) + ".") if sites else ""
+        f.write(TPL.format(avoid=avoid, wt=wt, out=out, title=p["title"], statement=p["statement"], quant=p["quantifier"]["text"]))
     print("wrote", os.path.join(root, pid + "_prompt.txt"))
